@@ -2,7 +2,11 @@
 // confirmed by reading /repo) applied with the engine's rule templates.
 package checks
 
-import "gnoverif/engine"
+import (
+	"strings"
+
+	"gnoverif/engine"
+)
 
 // Meta is what MANIFEST.json says about a check.
 type Meta struct {
@@ -51,6 +55,18 @@ func progWith(c *engine.Ctx, rel ...string) *engine.Prog {
 	if c.Prog != nil {
 		all := true
 		for _, r := range rel {
+			if strings.HasSuffix(r, "/...") {
+				found := false
+				for _, pk := range c.Prog.Pkgs {
+					if strings.HasPrefix(engine.Rel(pk.PkgPath), strings.TrimSuffix(r, "/...")) {
+						found = true
+					}
+				}
+				if !found {
+					all = false
+				}
+				continue
+			}
 			if c.Prog.Pkg(r) == nil {
 				all = false
 			}
